@@ -50,8 +50,8 @@ def main():
         res['demo_output_with_patch'] = out1[-600:]
         if not no_suite:
             junit = os.path.join(wt, 'junit.xml')
-            rc, out = sh('/venv/bin/python -m pytest -q -p no:cacheprovider -n 12 --timeout=900 --continue-on-collection-errors '
-                         '--junitxml=%s glue 2>&1 | tail -5' % junit, cwd=wt, env=env, timeout=5400)
+            rc, out = sh('/venv/bin/python -m pytest -q -p no:cacheprovider -n %s --timeout=900 --continue-on-collection-errors '
+                         '--junitxml=%s glue 2>&1 | tail -5' % (os.environ.get('SEED_N', '12'), junit), cwd=wt, env=env, timeout=5400)
             base = set(json.load(open('/root/.vp/BASELINE.json'))['stable_pass'])
             failed = set()
             seen = set()
